@@ -24,6 +24,10 @@ def run(ctx, rep):
                        'index arithmetic in loops with no structural witness; it would need execution or symbolic exploration (a different technique family).')
     rep.trusted = ['syn', 'astq evaluator']
     f = ctx.fn('get_dependencies_from_type', file='topsort.rs')
+    if not coverage.find_matches(f, 'SpecialRustType') and not coverage.find_matches(f, 'RustType'):
+        delegated_traversal(ctx, rep, f)
+        g2_onwards(ctx, rep)
+        return
     n = coverage.check_recursion(rep, 'G1', ctx, f, 'SpecialRustType', ['get_dependencies_from_type'], 'get_dependencies_from_type')
     rep.floor('G1', 'payload-carrying SpecialRustType variants', n, 5)
     # generic arguments as types
@@ -44,6 +48,34 @@ def run(ctx, rep):
         nested_under_lookup = any(any(fr.get('k') == 'if' and isinstance(fr['c'], dict) and fr['c'].get('k') == 'iflet' and 'types.get' in vt.show(fr['c']['scrut']) for fr in l['guard']) for l in ploops) or not ploops
         rep.check(not nested_under_lookup, 'G1', 'get_dependencies_from_type:RustType::Generic:parameters-unconditional', 'arguments visited regardless of the base type',
                   "generic arguments are only inspected when the generic type itself is a typeshared item of this file (`if let Some(..) = types.get(id)` encloses the loop): `Foreign<Item>` / a type-mapped generic yields no edge to Item", {'file': f['file'], 'line': g_arm['line']})
+    g2_onwards(ctx, rep)
+
+
+def delegated_traversal(ctx, rep, f):
+    """The collector does not walk the type itself but iterates the names produced by a traversal method of RustType:
+    that method must yield *every* nested name — no filtering, truncating or deduplicating adaptor on the stream."""
+    site = {'file': f['file'], 'line': f['line']}
+    tp = f['params'][0]['name']
+    loops = [l for l in f['loops'] if l.get('kind') == 'for']
+    src = None
+    for l in loops:
+        o = vt.strip(l.get('over'))
+        if isinstance(o, dict) and o.get('k') == 'call' and o.get('recv') is not None and vt.show(vt.strip(o['recv'])) == tp:
+            src = o
+    if src is None:
+        raise core.Incomplete('get_dependencies_from_type: neither a match over RustType/SpecialRustType nor a loop over a traversal of the type was found')
+    ms = [g for g in ctx.astq['functions'] if g['name'].split('::')[-1] == src['f'] and (g.get('self_ty') or '').startswith('RustType')]
+    if len(ms) != 1:
+        raise core.Incomplete(f"traversal method RustType::{src['f']} not found")
+    m = ms[0]
+    chain = [c.get('f') for c in vt.calls_in(m.get('tail'))] + [c.get('f') for c in m['calls']]
+    bad = [c for c in chain if c in ('filter', 'filter_map', 'take', 'skip', 'take_while', 'skip_while', 'step_by', 'unique', 'dedup', 'nth', 'find')]
+    rep.check(not bad, 'G1', f"get_dependencies_from_type:delegated:{src['f']}:unfiltered", 'every nested type name is yielded', f"get_dependencies_from_type collects dependencies from RustType::{src['f']}(), which passes the names through {sorted(set(bad))}: references to items whose name the filter rejects (lower-case / underscore-led / ignore-listed names) create no ordering edge and the item is written after its users", {'file': m['file'], 'line': m['line']})
+    guarded = [c for c in f['calls'] if c.get('f') == 'get_dependencies']
+    rep.check(bool(guarded), 'G1', 'get_dependencies_from_type:delegated:recurses', 'recurses into the referenced item', 'get_dependencies_from_type no longer recurses into the items it finds', site)
+
+
+def g2_onwards(ctx, rep):
     # G2 item dispatch
     gd = ctx.fn('get_dependencies', file='topsort.rs')
     ri = ctx.item('enum', 'RustItem')
@@ -127,6 +159,11 @@ def run(ctx, rep):
         rep.check(not missing, 'G3', f'{qual}:all-items-sorted', 'aliases+structs+enums+consts chained into the sorted list', f'{qual}: the list handed to topsort lacks {missing}', site)
         writes = [c for c in d['calls'] if c.get('f', '').startswith('write_') and c['f'] in ('write_enum', 'write_struct', 'write_type_alias', 'write_const')]
         rep.check(len({c['f'] for c in writes}) == 4, 'G3', f'{qual}:all-kinds-written', 'four item kinds written', f"{qual} writes only {sorted({c['f'] for c in writes})}", site)
+        # nothing reorders the list after the topological sort
+        sorted_var = vt.show(vt.strip(arg)).split('.')[0].strip('&').replace('mut ', '').strip()
+        REORDER = ('sort', 'sort_by', 'sort_by_key', 'sort_unstable', 'sort_unstable_by', 'sort_unstable_by_key', 'sort_by_cached_key', 'reverse', 'swap', 'rotate_left', 'rotate_right', 'retain', 'dedup', 'dedup_by', 'dedup_by_key', 'remove', 'insert', 'swap_remove', 'drain', 'truncate', 'select_nth_unstable', 'partition_point', 'shuffle')
+        later = [c for c in d['calls'] if c.get('f') in REORDER and c.get('recv') is not None and c.get('line', 0) > ts[0]['line'] and vt.show(vt.strip(c['recv'])).split('.')[0] == sorted_var]
+        rep.check(not later, 'G3', f'{qual}:no-reordering-after-topsort', 'the sorted order is what is written', f"{qual} reorders the list after topsort with `{later[0]['f'] if later else ''}` ({vt.show(later[0]['args'][0])[:50] if later and later[0].get('args') else ''}): items are no longer written dependencies-first (e.g. a constant before the alias that is its type)", {'file': d['file'], 'line': later[0].get('line') if later else d['line']})
         early = [c for c in writes if c['line'] < ts[0]['line']]
         rep.check(not early, 'G3', f'{qual}:sorted-before-write', 'topsort precedes every write', f'{qual} writes items before sorting', site)
         sinks = {emit.sig(c['args'][0]) for c in writes if c.get('args')}
